@@ -42,6 +42,8 @@ func c16(c *Check) {
 	c.FrozenFiltered("C11", "C16/conversion-all-or-nothing", func(fn string) bool {
 		return strings.HasSuffix(fn, "Keeper.ConvertCoin") || strings.HasSuffix(fn, "Keeper.convertCoinNativeCoin") || strings.HasSuffix(fn, "Keeper.convertCoinNativeERC20")
 	})
+	c.Rule("C16/no-failure-reported-as-success", "on the failure edge of one error no function returns another error value that is provably nil at that point (a wrapped stale `err` instead of the error just tested): a failed step is never reported as success", 1)
+	noFailureAsSuccess(c, "C16/no-failure-reported-as-success", fnsInPackages(c, "/x/aggregate"))
 	c.Rule("C16/middleware-forwarding", "IBCMiddleware.OnRecvPacket calls the wrapped module with unmodified (ctx,packet,relayer), returns its ack when !Success(), otherwise returns the hook's value for that same ack; ibc.Module forwards every callback unchanged", 12)
 	mw := c.F("x/aggregate.IBCMiddleware.OnRecvPacket")
 	mm := Macros{"INNER": "teleport/ibc.(Module).OnRecvPacket($0.Module, $1, $2, $3)"}
